@@ -6,6 +6,8 @@
 import SpecsModel.Lemmas.EWorldAccept
 import SpecsModel.Lemmas.EntSpecFacts
 import SpecsModel.Props.WorldEnt
+import SpecsModel.Conc.LemmasStep
+import SpecsModel.Conc.LemmasRecycle
 namespace SpecsModel.C17
 open SpecsModel Alloc
 
@@ -58,5 +60,54 @@ theorem world_no_index_leaked (fuel : Nat) (ops : List WOp) :
       (WorldEnt.after fuel ops).ent.alloc.occ i = true ∨ i ∈ (WorldEnt.after fuel ops).ent.alloc.free) ∧
     ∃ s : EntSpec, (WorldEnt.after fuel ops).ent.alloc.maxId ≤ s.peak ∧ s.live.length ≤ s.peak :=
   WorldEnt.no_index_leaked fuel ops
+
+/-! ### Creations racing through shared access (`Entities::create`, `create_iter`, … from several threads)
+
+The small-step model of the shared-access phase (`SpecsModel.Conc`, tied to the code by the scheduled runs of
+`h_conc` at the H1 yield points; `bin/check C17` runs them through the monitor `MON C17` of the driver). -/
+
+open Conc in
+/-- **C17 under concurrency.** For every number of threads, every program and every schedule (spurious CAS failures
+    included): as soon as a never-used index has been handed out during the phase — the fresh-index counter has moved —
+    the free list is exhausted, and every index that was free when the phase started has been handed out to a creation
+    of this phase. Nothing dies inside the phase, so at that moment (and until the next `maintain`) every index below
+    the counter is occupied by an entity that is alive or awaiting maintain: the recycling rule holds at every point of
+    every interleaving. -/
+theorem concurrent_fresh_index_only_when_free_list_exhausted
+    {a0 : Alloc} {q0 : List Nat} {L : List Entity} {progs : List (List Call)}
+    (h0 : Start a0 L) (s : List (Nat × Bool))
+    (hfresh : a0.maxId < ((Conf.start a0 q0 L progs).runW s).alloc.maxId) :
+    ((Conf.start a0 q0 L progs).runW s).alloc.cacheLen = 0 ∧
+    ∀ j, j ∈ a0.free → j ∈ ((Conf.start a0 q0 L progs).runW s).issued.map (·.2) := by
+  have hE : EInv a0.maxId ((Conf.start a0 q0 L progs).runW s) := einv_runW s _ (einv_start a0 q0 L progs)
+  have hP : PInv a0 q0 L progs ((Conf.start a0 q0 L progs).runW s) := inv_runW h0 s _ inv_start
+  have hz := hE.ctr hfresh
+  refine ⟨hz, ?_⟩
+  intro j hj
+  refine (hP.issuedMem j).mpr (Or.inl ?_)
+  rw [hz]; simpa using hj
+
+open Conc in
+/-- The same, read per thread: a thread that has got past `atomic_decrement` without an index (it read the length 0)
+    can only be followed by an empty free list — `cache.len` never grows inside the phase. -/
+theorem concurrent_free_list_stays_empty
+    {a0 : Alloc} {q0 : List Nat} {L : List Entity} {progs : List (List Call)} (s : List (Nat × Bool))
+    (t : Nat) (th : Thread) (hget : ((Conf.start a0 q0 L progs).runW s).threads[t]? = some th)
+    (hp : pastEmpty th.pc) : ((Conf.start a0 q0 L progs).runW s).alloc.cacheLen = 0 :=
+  (einv_runW s _ (einv_start a0 q0 L progs)).thr t th hget hp
+
+/-- Start of the non-vacuity example: one free index (`free = [0]`, `max_id = 1`), two threads creating. -/
+def demoConc : Conc.Conf :=
+  (Conc.Conf.start (EWorld.run [.createNow false, .delNow 0]).1.alloc [] [] [[.create], [.create]]).runW
+    [(0, false), (1, false), (0, false), (1, false), (1, false), (1, false), (0, false), (1, false), (0, false),
+     (1, false), (0, false), (1, false)]
+
+/-- Non-vacuity: both threads read `len = 1`; thread 0 wins the CAS, thread 1 retries, reads 0 and takes the
+    never-used index 1 — the counter has moved, the free list is empty, index 0 has been handed out. -/
+example :
+    (EWorld.run [.createNow false, .delNow 0]).1.alloc.free = [0] ∧
+    (EWorld.run [.createNow false, .delNow 0]).1.alloc.maxId = 1 ∧
+    demoConc.alloc.maxId = 2 ∧ demoConc.alloc.cacheLen = 0 ∧ demoConc.issued = [(0, 0), (1, 1)] ∧
+    demoConc.quiescent = true := by decide +kernel
 
 end SpecsModel.C17
